@@ -32,30 +32,45 @@ ArithOps == {"+", "-", "*", "/", "%", "^"}
 CmpIOps  == {"==", "!=", "<", ">", "<=", ">="}
 CmpSOps  == {"==", "!=", "starts with", "ends with", "in"}
 
-\* Gen[ty][n]: trees of type ty with exactly n binary operators
-RECURSIVE Gen(_, _)
+\* GenOp(ty, n, op): trees of type ty with exactly n >= 1 binary operators and top operator op
+\* Gen(ty, n): all trees of type ty with exactly n binary operators
+RECURSIVE Gen(_, _), GenOp(_, _, _)
 Splits(n) == {<<i, n - 1 - i>> : i \in 0..(n - 1)}
+OpsOf(ty) == CASE ty = "int" -> ArithOps [] ty = "str" -> {"~"}
+               [] ty = "bool" -> CmpIOps \cup CmpSOps \cup {"matches", "in", "not in", "and", "or"}
+               [] OTHER -> {}
+\* operand types of op when the result type is ty: set of <<left type, right type>>
+Sig(ty, op) ==
+    CASE ty = "int" -> {<<"int", "int">>}
+      [] ty = "str" -> {<<"is", "is">>}
+      [] ty = "bool" ->
+           (IF op \in CmpIOps THEN {<<"int", "int">>} ELSE {})
+           \cup (IF op \in CmpSOps THEN {<<"str", "str">>} ELSE {})
+           \cup (IF op = "matches" THEN {<<"str", "pat">>} ELSE {})
+           \cup (IF op \in {"in", "not in"} THEN {<<"int", "list">>} ELSE {})
+           \cup (IF op \in {"and", "or"} THEN {<<"bool", "bool">>} ELSE {})
+GenOp(ty, n, op) ==
+    UNION { UNION { {Bin(op, l, r) : l \in Gen(sg[1], sp[1]), r \in Gen(sg[2], sp[2])} : sg \in Sig(ty, op) } : sp \in Splits(n) }
 Gen(ty, n) ==
     IF n = 0 THEN
         CASE ty = "int" -> IntLeaves [] ty = "str" -> StrLeaves [] ty = "bool" -> BoolLeaves
           [] ty = "list" -> ListLeaves [] ty = "pat" -> PatLeaves [] ty = "is" -> IntLeaves \cup StrLeaves
     ELSE IF ty \in {"list", "pat"} THEN {}
     ELSE IF ty = "is" THEN Gen("int", n) \cup Gen("str", n)
-    ELSE UNION {
-        CASE ty = "int" ->
-               {Bin(op, l, r) : op \in ArithOps, l \in Gen("int", sp[1]), r \in Gen("int", sp[2])}
-          [] ty = "str" ->
-               {Bin("~", l, r) : l \in Gen("is", sp[1]), r \in Gen("is", sp[2])}
-          [] ty = "bool" ->
-               {Bin(op, l, r) : op \in CmpIOps, l \in Gen("int", sp[1]), r \in Gen("int", sp[2])}
-               \cup {Bin(op, l, r) : op \in CmpSOps, l \in Gen("str", sp[1]), r \in Gen("str", sp[2])}
-               \cup {Bin("matches", l, r) : l \in Gen("str", sp[1]), r \in Gen("pat", sp[2])}
-               \cup {Bin(op, l, r) : op \in {"in", "not in"}, l \in Gen("int", sp[1]), r \in Gen("list", sp[2])}
-               \cup {Bin(op, l, r) : op \in {"and", "or"}, l \in Gen("bool", sp[1]), r \in Gen("bool", sp[2])}
-        : sp \in Splits(n) }
+    ELSE UNION {GenOp(ty, n, op) : op \in OpsOf(ty)}
 
-Typed == [ty : {"int", "str", "bool"}, n : 0..MaxOps]
-Trees == UNION {{[ty |-> tn.ty, e |-> e] : e \in Gen(tn.ty, tn.n)} : tn \in Typed}
+\* The tree space is cut into partitions (type, operator count, top operator) so that
+\* TLC's workers expand them in parallel: the initial states are the partitions, the
+\* successors of a partition are its trees.
+TopOps(ty) == OpsOf(ty)
+Parts == {[k |-> "part", ty |-> ty, n |-> n, op |-> op] : ty \in {"int", "str", "bool"}, n \in 1..MaxOps, op \in BinOps}
+         \cup {[k |-> "part", ty |-> ty, n |-> 0, op |-> "leaf"] : ty \in {"int", "str", "bool"}}
+         \cup {[k |-> "part", ty |-> "spy", n |-> 0, op |-> "spy"]}
+TreesOfPart(p) ==
+    IF p.ty = "spy" THEN {}
+    ELSE IF p.n = 0 THEN {[ty |-> p.ty, e |-> e] : e \in Gen(p.ty, 0)}
+    ELSE IF p.op \notin TopOps(p.ty) THEN {}
+    ELSE {[ty |-> p.ty, e |-> e] : e \in GenOp(p.ty, p.n, p.op)}
 
 \* ---- short-circuit / conditional trees with spies (fixed families) -------------
 \* operands wrapped in sp('id', x): per-position ids, counts compared, never order
@@ -162,12 +177,12 @@ PositionsAgree(t) ==
         LET r == Render(World(PosWorld(p, t.ty, t.e)), "main", Ctx2) IN
         r.ok = Ref(t).ok /\ r.out = Ref(t).out
 
-AllTrees == {t \in Trees \cup SpyTrees : InFragment(t)}
-
-Init == cs \in AllTrees
-Next == UNCHANGED cs
+Init == cs \in Parts
+Next == /\ "k" \in DOMAIN cs
+        /\ cs' \in {t \in (IF cs.ty = "spy" THEN SpyTrees ELSE TreesOfPart(cs)) : InFragment(t)}
 Spec == Init /\ [][Next]_cs
 
-Emit == PrintT(ToJson(CaseOf(cs)))
-ModelOK == NOps(cs.e) <= PosOps => PositionsAgree(cs)
+IsTree == "e" \in DOMAIN cs
+Emit == IsTree => PrintT(ToJson(CaseOf(cs)))
+ModelOK == (IsTree /\ NOps(cs.e) <= PosOps) => PositionsAgree(cs)
 =============================================================================
